@@ -15,6 +15,7 @@ import os
 from .. import matchpipe, objdump, render, tlc
 from ..common import Report, MachineryError, scratch
 
+BIN_B_SRC_NOTE = "the second object (same size, other registers / targets) is derived from BIN_SRC by replace()"
 BIN_SRC = """\t.text
 f:
 \tpush %rbx
@@ -88,7 +89,7 @@ def apalache(report):
 
 def run(prop, tier):
     report = Report(prop, tier)
-    max_ops = 3 if tier == "quick" else 4
+    max_ops = 2 if tier == "quick" else 3
     # 1. design level
     st = tlc.run("MC_C14", cfg=f"MC_C14_{tier}.cfg", dump=True)
     report.add_tlc(st, f"MC_C14 {tier}")
@@ -116,7 +117,14 @@ def run(prop, tier):
         U = json.load(f)
     rules = {r["id"]: r for r in U["rules"]}
     obj = objdump.assemble(BIN_SRC, "c14bin")
-    listings = [{"id": 0, "text": render.listing_text(U["listing"])}, {"id": 1, "path": obj, "binary": True}]
+    # a second object of the same size; "binA"/"binB" are copied onto ONE path before the operation, so a
+    # history can replace the input file between two operations (same path, same size, other content)
+    obj_b = objdump.assemble(BIN_SRC.replace("%rbx", "%rbp").replace("call g", "call f").replace("\tnop\n\tnop\n", "\tnop\n\tcld\n"), "c14binb")
+    if os.path.getsize(obj) != os.path.getsize(obj_b):
+        raise MachineryError("the two C14 objects differ in size")
+    listings = [{"id": 0, "text": render.listing_text(U["listing"])}, {"id": 1, "copy_from": obj, "binary": True},
+                {"id": 2, "copy_from": obj_b, "binary": True}]
+    LI = {"text": 0, "bin": 1, "binB": 2}
     job_rules, rid = [], {}
     for r in U["rules"]:
         y, xm = rule_yaml(r)
@@ -128,14 +136,17 @@ def run(prop, tier):
         variants = [tuple("text" for _ in h)]
         if any("bin" in rules[r]["inputs"] for r in h):
             variants.append(tuple("bin" if "bin" in rules[r]["inputs"] else "text" for r in h))
-        for v in variants:
-            histories.append([[rid[r], 1 if i == "bin" else 0] for r, i in zip(h, v)])
+            # the file at the input path is replaced between operations (A, B, A, ...)
+            variants.append(tuple(("bin" if n % 2 == 0 else "binB") if "bin" in rules[r]["inputs"] else "text"
+                                  for n, r in enumerate(h)))
+        for v in dict.fromkeys(variants):
+            histories.append([[rid[r], LI[i]] for r, i in zip(h, v)])
             hist_keys.append(list(zip(h, v)))
     obs = matchpipe.drive({"rules": job_rules, "listings": listings, "histories": histories}, tag="c14h")
     # 3. fresh-process oracle: each operation alone
     ops = sorted({(r, i) for hk in hist_keys for (r, i) in hk})
     fresh_obs = matchpipe.drive({"rules": job_rules, "listings": listings,
-                                 "histories": [[[rid[r], 1 if i == "bin" else 0]] for (r, i) in ops]}, tag="c14f")
+                                 "histories": [[[rid[r], LI[i]]] for (r, i) in ops]}, tag="c14f")
     fresh = {op: fo["events"][0] for op, fo in zip(ops, fresh_obs)}
     for op, e in fresh.items():
         if e["outcome"] != "ok":
